@@ -14,7 +14,9 @@ PROPERTIES = {
             "Intersection/Union/DifferenceRegion; AllRegion/EmptyRegion laws; Boolean combination in the composed regions' containsPoint/"
             "containsObject; distanceTo = 0 exactly on members, else the Euclidean distance to the nearest member (Polygonal, Circular, "
             "Polyline, Footprint, PointSet); MeshRegion.projectVector returns the nearest hit along +-direction; intersects <=> a shared "
-            "point (with heights); containsRegionInner totality and soundness; every member inside the reported AABB; findMinMax"
+            "point (with heights); containsRegionInner totality and soundness; every member inside the reported AABB; findMinMax; "
+            "n-ary unions: PolygonalRegion.unionAll (membership in the result = membership in some operand, common height kept, or the operand list is refused), "
+            "PolylineRegion.unionAll / __add__ (union of the operands' lines; non-polyline operands refused with TypeError / NotImplemented; the empty list gives nowhere)"
         ),
         note=(
             "proved relative to the shapely / numpy / trimesh / KD-tree library contracts of pyvc/models_shapely.py (exact planar set "
@@ -31,10 +33,11 @@ PROPERTIES = {
         not_reached=[
             "MeshVolumeRegion/MeshSurfaceRegion.intersect/union/difference bodies (trimesh boolean operations and slicing)",
             "MeshVolumeRegion/MeshSurfaceRegion.containsPoint/distanceTo (trimesh proximity queries), PathRegion.distanceTo, VoxelRegion",
-            "PolygonalRegion.unionAll, PolylineRegion.unionAll/__add__, buffer/approxBoundFootprint/boundFootprint",
+            "PolygonalRegion.unionAll with buf > 0 (buffer-unbuffer smoothing of the xodr parser) and cleanPolygon; buffer/boundFootprint",
+            "PathRegion.distanceTo / containsPoint / nearestSegmentTo (_segmentDistanceHelper: numpy cross / hypot / amax forms are not modelled by the engine)",
             "projectVector default direction of MeshSurfaceRegion (area-weighted face normal)",
             "lazily constructed operands (isLazy arms fall back to the generic regions; only the non-lazy arms are verified)",
         ],
-        bounded=["findMinMax: 1..4 values", "PointSetRegion.AABB: 1..3 points"],
+        bounded=["findMinMax: 1..4 values", "PointSetRegion.AABB: 1..3 points", "PolygonalRegion.unionAll: 2..3 operands (polygonal / nowhere / footprint / polyline); PolylineRegion.unionAll: 0..2 operands"],
     )
 }
